@@ -156,7 +156,8 @@ def run_cli_case(case):
                 raise RuntimeError(f'autodetection selected {n_selected} strategies although one is the maximum')
             # the short name of the selected strategy as the yield table of the log gives it (absent when it accepted nothing)
             logtxt = open(os.path.join(prefix, 'demultiplexing.log')).read()
-            selected = re.findall(r'^(\S+)\t\d+$', logtxt.split('Strategy\tReads\n')[-1], flags=re.M) or ['<selected strategy without yield>']
+            selected = sorted(set(x for section in logtxt.split('Strategy\tReads\n')[1:] for x in re.findall(r'^(\S+)\t\d+$', section, flags=re.M))) \
+                or ['<selected strategy without yield>']
             if len(selected) > 1:
                 acc.violate('yield-counter-mismatch', f'cli autodetect: the log lists yields for {selected} although one strategy was selected ({cfg})', wit)
                 return acc
@@ -193,11 +194,9 @@ def run_cli_case(case):
                 known_ids = [t for t in these if t is not None]
                 if len(selected) > 1:
                     # every selected strategy is offered the read: one record per (read, strategy) at most
-                    keyed = [(t, fq.parse_out_header(x[0]).get('MX') if what == 'demultiplexed' else None) for t, x in zip(these, recs) if t is not None]
-                    per_read = collections.Counter(t for t, _ in keyed)
-                    if what == 'demultiplexed' and len(set(keyed)) != len(keyed):
-                        acc.violate('demultiplexed-written-twice', f'cli {name}: the same (read, strategy) is written twice in a {what} file ({cfg})', wit)
-                    elif max(per_read.values(), default=0) > len(selected):
+                    # (the MX tag does not identify the selected strategy: composite strategies write the name of the inner protocol)
+                    per_read = collections.Counter(known_ids)
+                    if max(per_read.values(), default=0) > len(selected):
                         acc.violate(f'{what}-written-twice', f'cli {name}: a read has more {what} records than strategies were selected ({cfg})', wit)
                     if known_ids != sorted(known_ids):
                         acc.violate(f'{what}-order-not-preserved', f'cli {name}: ids not increasing in a {what} file: {known_ids[:10]} ({cfg})', wit)
